@@ -9,7 +9,7 @@ outputs:
 
 * no operation may panic;
 * a data segment that violates the protocol (`Spec.mustReject`, evaluated on a ghost view that is
-  maintained from the wire bytes only) must be refused;
+  maintained from the wire bytes only, plus the segment size the implementation reports) must be refused;
 * the messages fetched at an end are a prefix of the reassembly of the segments that end accepted
   (`Spec.Reasm`), byte-identical — nothing corrupted, duplicated or reordered;
 * an end never has more unacknowledged segments in flight than the negotiated window;
